@@ -109,6 +109,7 @@ structure Block where
   sign : Bytes
   height : Int
   txids : List Bytes                 -- Txid of every transaction, in block order (a nil Txid is `[]`)
+  carried : List (Option Bytes)      -- the MerkleTree array the message carries (`none`: nil node); never read by VerifyBlock
 deriving DecidableEq, Repr
 
 def justifySegs : Option Justify → List Bytes
@@ -173,10 +174,26 @@ structure Crypto where
   pubJson : Nat → Bytes                  -- GetEcdsaPublicKeyJsonFormatStr of key pair k
   signWith : Nat → Bytes → Bytes         -- SignECDSA with the private key of pair k
 
+/-- node arrays compared the way `bytes.Equal` does: a nil node and an empty one are the same -/
+def sameNodes (a b : List (Option Bytes)) : Bool := a.map (·.getD []) == b.map (·.getD [])
+
+/-- `VerifyMerkle` recomputes the tree from the body: its root must be the header's root and —
+since the repair — the carried array `b.carried` (outside id and signature, so rewritable by
+anyone, but stored with the header and used by `queryBlock` to list the body) must be that tree -/
 def verifyMerkle (H : Bytes → Bytes) (b : Block) : Bool :=
   match merkleRoot H b.txids with
   | none => false
+  | some r => r == b.merkleRoot && sameNodes b.carried (merkleTree H b.txids)
+
+/-- `VerifyMerkle` as found: the carried array was not consulted -/
+def verifyMerkleAsFound (H : Bytes → Bytes) (b : Block) : Bool :=
+  match merkleRoot H b.txids with
+  | none => false
   | some r => r == b.merkleRoot
+
+/-- `queryBlock`: the body of a stored block is listed from the first `TxCount` nodes of the tree
+stored with its header -/
+def storedBody (b : Block) : List Bytes := (b.carried.take b.txCount.toNat).map (·.getD [])
 
 def verifySig (c : Crypto) (b : Block) : Bool :=
   match c.keyOf b.pubkey with
@@ -191,6 +208,14 @@ def verifyBlock (c : Crypto) (b : Block) : Bool :=
   && verifyMerkle c.H b
   && verifySig c b
 
+/-- `Ledger.VerifyBlock` as found (before the carried tree was checked) -/
+def verifyBlockAsFound (c : Crypto) (b : Block) : Bool :=
+  (c.H (preimage b) == b.blockid)
+  && (b.txCount == (b.txids.length : Int))
+  && b.txids.all (fun t => t.length == hashWidth)
+  && verifyMerkleAsFound c.H b
+  && verifySig c b
+
 /-- `Ledger.formatBlock` with `needSign` (FormatBlock / FormatMinerBlock); the block is
 signed only if `preHash` is not empty -/
 def formatBlock (c : Crypto) (txids : List Bytes) (proposer : Bytes) (key : Nat) (timestamp curTerm curBlockNum : Int)
@@ -200,7 +225,8 @@ def formatBlock (c : Crypto) (txids : List Bytes) (proposer : Bytes) (key : Nat)
     pubkey := c.pubJson key, preHash := preHash,
     merkleRoot := (merkleRoot c.H txids).getD [],
     failedTxs := failed, curTerm := curTerm, curBlockNum := curBlockNum, targetBits := targetBits,
-    justify := qc, blockid := [], sign := [], height := height, txids := txids }
+    justify := qc, blockid := [], sign := [], height := height, txids := txids,
+    carried := merkleTree c.H txids }
   let id := c.H (preimage b)
   { b with blockid := id, sign := if preHash.isEmpty then [] else c.signWith key id }
 
